@@ -146,6 +146,10 @@ func regPrelude(pkg string) {
 		}
 		return nil
 	})
+	simple(p+"vRecord", func(s *State, a []Value) Value {
+		s.trace = append(s.trace, Choice{"rec:" + str(a[0]), s.cint(a[1])})
+		return nil
+	})
 	simple(p+"vLog", func(s *State, a []Value) Value {
 		s.events = append(s.events, str(a[0]))
 		return nil
